@@ -180,15 +180,20 @@ func c05Leaf(c *Ctx, r *Report, a *Anchors) {
 				ls, _ := phiLeaves(e)
 				okAll := true
 				desc := ""
+				errPath := false
 				for _, l := range ls {
 					d, ok := classify(l.val)
 					if !ok {
 						// the element obtained from an accessor that failed: nil-able raw value from AnyResolver.Nth on the error path
 						if ex, isEx := l.val.(*ssa.Extract); isEx {
-							if cl, isCall := ex.Tuple.(*ssa.Call); isCall && cl.Call.IsInvoke() && cl.Call.Method.Name() == "Nth" && l.pred != nil {
+							if cl, isCall := ex.Tuple.(*ssa.Call); isCall && cl.Call.IsInvoke() && cl.Call.Method.Name() == "Nth" {
 								errv := extractOf(cl, 1)
 								guardedErr := false
-								for _, g := range edgeGuards(l.pred, l.phi.Block()) {
+								gs := blockGuards(call.Block())
+								if l.pred != nil {
+									gs = edgeGuards(l.pred, l.phi.Block())
+								}
+								for _, g := range gs {
 									if errv != nil && guardSaysNonNil(g, errv) {
 										guardedErr = true
 									}
@@ -197,6 +202,7 @@ func c05Leaf(c *Ctx, r *Report, a *Anchors) {
 									d = "accessor's value on its error path"
 									okAll = false
 									desc = d
+									errPath = true
 									continue
 								}
 							}
@@ -205,7 +211,13 @@ func c05Leaf(c *Ctx, r *Report, a *Anchors) {
 						desc = d
 					}
 				}
-				r.check("C05.LEAF", fmt.Sprintf("%s: list element (%s) #%d", fnName(lf), arm, perArm[arm]), call.Pos(), okAll, "a list element is appended without coercion to the element type: "+desc)
+				key := fmt.Sprintf("%s: list element (%s) #%d", fnName(lf), arm, perArm[arm])
+				if errPath {
+					// named by what it is, not by its position among the appends of the arm
+					perArm[arm]--
+					key = fmt.Sprintf("%s: list element (%s): %s", fnName(lf), arm, desc)
+				}
+				r.check("C05.LEAF", key, call.Pos(), okAll, "a list element is appended without coercion to the element type: "+desc)
 			}
 		}
 	}
